@@ -313,11 +313,18 @@ class B:
             self.rled = True
             self.both("body", ["led = Led(9)"])
         uses = []
+        shown = d
+        derive = []
+        if form != "pass_acc" and self.draw(st.booleans()):
+            # a new top-level name computed from the operand *after* it changed: its value is the operand's run-time value, not the first one
+            e = self.nm("e")
+            derive = [f"{e} = {d} + {self.draw(st.integers(0, 3))}"]
+            shown = e
         if use == "RANGE":
             k = self.nm("k")
-            uses = [f"for {k} in range({d}):", f"    mon.write({k})"]
+            uses = derive + [f"for {k} in range({shown}):", f"    mon.write({k})"]
         else:
-            uses = [use.format(d), f"mon.write({d})"]
+            uses = derive + [use.format(shown), f"mon.write({shown})"]
         if form == "branch_const":
             lines = [f"{d} = 3", f"if {self.cond()}:", f"    {d} = {self.draw(st.integers(4, 9))}"] + uses
             self.both("body", lines)
